@@ -208,7 +208,7 @@ theorem options_step {s : Stream} {cls : StreamClass} {o : SerOptions} (hs : Str
   · rw [henc]
     simp only [initState, wireOptions, hopts]
     exact ⟨⟨Lookup.WF.new _, Lookup.WF.new _, Lookup.WF.new _, rfl, rfl, rfl, fun _ => rfl⟩,
-      ⟨EMirror.new _, EMirror.new _, EMirror.new _⟩, rfl, rfl, rfl, rfl, rfl, rfl, rfl⟩
+      ⟨EMirror.new _, EMirror.new _, EMirror.new _⟩, rfl, rfl, rfl, rfl, rfl, rfl, rfl, rfl⟩
   · exact hcls ▸ rfl
 
 
@@ -604,20 +604,20 @@ theorem Stream.graph_sim_gen {F : Prop} {P : Preset} {o : Options} (hpn : 0 < P.
     ⟨hnF, te', e, herr⟩ | ⟨te', rows0, w, ss1, heq, inv1, ho1, hg1, hrun1⟩
   · left
     refine ⟨hnF, ?_⟩
-    simp only [Stream.graph, herr]
+    simp only [Stream.graph, TermEnc.beginRow_ok inv.nb, herr]
     exact ⟨_, _, _, rfl⟩
   rcases Stream.graphTriples_sim_gen hpn h3 exc g.norm triples
-      (({ s with enc := { s.enc with te := te' } } : Stream).pushRows (rows0 ++ [Row.graphStart (some w)]))
+      (({ s with enc := { s.enc with te := te'.endRow } } : Stream).pushRows (rows0 ++ [Row.graphStart (some w)]))
       [] ss1 inv1 ho1 hg1 htr with
     ⟨hnF, s2, frames2, e, e1⟩ | ⟨s2, frames2, ss2, rows2, e1, e2, e3, e4, e5, e6⟩
   · left
-    exact ⟨hnF, s2, frames2, e, by simp only [Stream.graph, heq, e1]⟩
+    exact ⟨hnF, s2, frames2, e, by simp only [Stream.graph, TermEnc.beginRow_ok inv.nb, heq, e1]⟩
   right
   obtain ⟨ss3, inv3, ho3, hg3, hrun3⟩ := graphEnd_run e3 e4 h3 e5
   refine ⟨{ (s2.pushRows [Row.graphEnd]) with flow := (s2.pushRows [Row.graphEnd]).flow.frameFromBounds.1 },
     frames2 ++ (s2.pushRows [Row.graphEnd]).flow.frameFromBounds.2.toList, ss3,
     (rows0 ++ [Row.graphStart (some w)]) ++ (rows2 ++ [Row.graphEnd]), ?_, ?_, inv3, ho3, hg3, ?_⟩
-  · simp only [Stream.graph, heq, e1]
+  · simp only [Stream.graph, TermEnc.beginRow_ok inv.nb, heq, e1]
   · have hfb := frameFromBounds_rows (s2.pushRows [Row.graphEnd]).flow
     have : rowsOf (frames2 ++ (s2.pushRows [Row.graphEnd]).flow.frameFromBounds.2.toList)
         { (s2.pushRows [Row.graphEnd]) with flow := (s2.pushRows [Row.graphEnd]).flow.frameFromBounds.1 }
@@ -856,13 +856,14 @@ theorem namespace_run {P : Preset} {T : Keys} (hf : TFits P T) {es : EncState} {
   have hres := res ssE (mE.agree sim.inv.wft R')
   rw [hself] at hres
   have hoE : ssE.opts = some o := fE.opts.trans hopt
-  refine ⟨te', rows ++ [Row.namespace name (some (p, n))], setLR ssE te', ?_, ?_, hoE, fE.graph, ?_⟩
-  · simp only [encodeNamespace, heq]
-  · exact ⟨sim.inv.wft, mE.congr ⟨rfl, rfl, rfl⟩ ⟨rfl, rfl, rfl⟩ ⟨rfl, rfl, rfl⟩, rfl, rfl, rfl,
+  refine ⟨te'.endRow, rows ++ [Row.namespace name (some (p, n))], setLR ssE te', ?_, ?_, hoE, fE.graph, ?_⟩
+  · simp only [encodeNamespace, TermEnc.beginRow_ok inv.nb, heq]
+  · exact ⟨sim.inv.wft.endRow, EM.endRow (te := te') (mE.congr ⟨rfl, rfl, rfl⟩ ⟨rfl, rfl, rfl⟩ ⟨rfl, rfl, rfl⟩),
+      rfl, rfl, rfl,
       by show ssE.rep.s = _; rw [fE.rep]; exact inv.rs,
       by show ssE.rep.p = _; rw [fE.rep]; exact inv.rp,
       by show ssE.rep.o = _; rw [fE.rep]; exact inv.ro,
-      by show ssE.rep.g = _; rw [fE.rep]; exact inv.rg⟩
+      by show ssE.rep.g = _; rw [fE.rep]; exact inv.rg, rfl⟩
   · intro rest acc i
     have hv2 : ¬ (o.version < 2) := by omega
     have hstep : Spec.step ssE (Row.namespace name (some (p, n)))
